@@ -7,6 +7,7 @@ list of each row match the annotation; the counters never raise on that feed; th
 import IsoVerif.Model.FeatureCounts
 import IsoVerif.Lemmas.C13Counts
 import IsoVerif.Lemmas.C13Features
+import IsoVerif.Lemmas.C13Merge
 import IsoVerif.Lemmas.C13ProfileComplete
 import IsoVerif.Props.C13
 
@@ -17,18 +18,18 @@ open IsoVerif.Gen IsoVerif.Model IsoVerif.Model.C13 IsoVerif.Lemmas.C13
 
 /-- the `i`-th FeatureInfo describes the `i`-th feature of the GeneInfo: chromosome and coordinates verbatim; a gene id
     is listed iff an isoform of that gene has the feature; the strand string is the concatenation of the sorted
-    distinct strands of the isoforms that have the feature -/
+    distinct strands (`sorted(set(..))`) of the isoforms that have the feature -/
 theorem feature_row_spec (chr : String) (δ : Int) (features : List Iv) (isoforms : List IsoformFeatures) (n : Nat)
     (i : Nat) (f : Iv) (hf : features[i]? = some f) :
     ∃ fi, (setFeatureProperties chr δ features isoforms n)[i]? = some fi ∧
       fi.chr = chr ∧ fi.start = f.1 ∧ fi.stop = f.2 ∧
       (∀ g, g ∈ fi.genes ↔ ∃ t ∈ isoforms, t.gene = g ∧ f ∈ t.feats) ∧
-      (∃ strands : List String, fi.strand = concatStrs (sortStrs strands) ∧
+      (∃ strands : List String, fi.strand = concatStrs (sortSD strLt strands) ∧
         ∀ s, s ∈ strands ↔ ∃ t ∈ isoforms, t.strand = s ∧ f ∈ t.feats) := by
   obtain ⟨fi, h1, _, h3, h4, h5, h6, h7⟩ := setFeatureProperties_get chr δ features isoforms n i f hf
   refine ⟨fi, h1, h3, h4, h5, ?_, ⟨_, h7, ?_⟩⟩
   · intro g
-    rw [h6, List.mem_eraseDups, List.mem_map]
+    rw [h6, mem_sortSD, List.mem_map]
     constructor
     · rintro ⟨⟨s, g', b⟩, he, hg⟩
       simp only at hg; subst hg
@@ -38,7 +39,7 @@ theorem feature_row_spec (chr : String) (δ : Int) (features : List Iv) (isoform
       obtain ⟨b, hb⟩ := (mem_featureEntries isoforms f t.strand g).mpr ⟨t, ht, rfl, hg, hft⟩
       exact ⟨(t.strand, g, b), hb, rfl⟩
   · intro s
-    rw [List.mem_eraseDups, List.mem_map]
+    rw [List.mem_map]
     constructor
     · rintro ⟨⟨s', g', b⟩, he, hs⟩
       simp only at hs; subst hs
@@ -111,7 +112,7 @@ theorem intronEvent_shape (g : GeneModel) (a : Int) (r : ReadAln) (ev : ReadEv) 
     include (exclude) count of an annotated exon in a group is the number of processed reads of that group whose
     exon profile is +1 (−1) at that exon -/
 theorem exon_table_counts (ignore : Bool) (dflt : String) (evs : List ReadEv) (hfeed : ExonFeed evs) :
-    ∃ st, countAll coordKey ignore dflt evs = some st ∧
+    ∃ st, countAll coordKey FeatureInfo.merge ignore dflt evs = some st ∧
       ∀ (k : CoordKey) (grp : String),
         st.inclOf k grp = (evs.filter (fun ev => groupOf ignore dflt ev == grp)).countP (marks coordKey 1 k) ∧
         st.exclOf k grp = (evs.filter (fun ev => groupOf ignore dflt ev == grp)).countP (marks coordKey (-1) k) := by
@@ -120,17 +121,17 @@ theorem exon_table_counts (ignore : Bool) (dflt : String) (evs : List ReadEv) (h
     obtain ⟨g, r, hg, he⟩ := hfeed ev hev
     have := exonEvent_shape g r ev hg he
     exact ⟨by omega, this.2.1⟩
-  have hsome := runCounter_isSome coordKey ignore dflt evs (PCounter.init ignore dflt) (fun ev hev => (hshape ev hev).1)
-  cases hc : countAll coordKey ignore dflt evs with
+  have hsome := runCounter_isSome (upd := FeatureInfo.merge) coordKey ignore dflt evs (PCounter.init ignore dflt) (fun ev hev => (hshape ev hev).1)
+  cases hc : countAll coordKey FeatureInfo.merge ignore dflt evs with
   | none => unfold countAll at hc; rw [hc] at hsome; simp at hsome
   | some st =>
     refine ⟨st, rfl, ?_⟩
     intro k grp
-    exact ⟨C13.include_counts_reads coordKey ignore dflt evs st hc (fun ev hev => (hshape ev hev).2) k grp,
-           C13.exclude_counts_reads coordKey ignore dflt evs st hc (fun ev hev => (hshape ev hev).2) k grp⟩
+    exact ⟨C13.include_counts_reads coordKey C13.hupd_merge ignore dflt evs st hc (fun ev hev => (hshape ev hev).2) k grp,
+           C13.exclude_counts_reads coordKey C13.hupd_merge ignore dflt evs st hc (fun ev hev => (hshape ev hev).2) k grp⟩
 
 theorem intron_table_counts (ignore : Bool) (dflt : String) (absδ : Int) (evs : List ReadEv) (hfeed : IntronFeed absδ evs) :
-    ∃ st, countAll coordKey ignore dflt evs = some st ∧
+    ∃ st, countAll coordKey FeatureInfo.merge ignore dflt evs = some st ∧
       ∀ (k : CoordKey) (grp : String),
         st.inclOf k grp = (evs.filter (fun ev => groupOf ignore dflt ev == grp)).countP (marks coordKey 1 k) ∧
         st.exclOf k grp = (evs.filter (fun ev => groupOf ignore dflt ev == grp)).countP (marks coordKey (-1) k) := by
@@ -139,25 +140,420 @@ theorem intron_table_counts (ignore : Bool) (dflt : String) (absδ : Int) (evs :
     obtain ⟨g, r, hg, he⟩ := hfeed ev hev
     have := intronEvent_shape g absδ r ev hg he
     exact ⟨by omega, this.2.1⟩
-  have hsome := runCounter_isSome coordKey ignore dflt evs (PCounter.init ignore dflt) (fun ev hev => (hshape ev hev).1)
-  cases hc : countAll coordKey ignore dflt evs with
+  have hsome := runCounter_isSome (upd := FeatureInfo.merge) coordKey ignore dflt evs (PCounter.init ignore dflt) (fun ev hev => (hshape ev hev).1)
+  cases hc : countAll coordKey FeatureInfo.merge ignore dflt evs with
   | none => unfold countAll at hc; rw [hc] at hsome; simp at hsome
   | some st =>
     refine ⟨st, rfl, ?_⟩
     intro k grp
-    exact ⟨C13.include_counts_reads coordKey ignore dflt evs st hc (fun ev hev => (hshape ev hev).2) k grp,
-           C13.exclude_counts_reads coordKey ignore dflt evs st hc (fun ev hev => (hshape ev hev).2) k grp⟩
+    exact ⟨C13.include_counts_reads coordKey C13.hupd_merge ignore dflt evs st hc (fun ev hev => (hshape ev hev).2) k grp,
+           C13.exclude_counts_reads coordKey C13.hupd_merge ignore dflt evs st hc (fun ev hev => (hshape ev hev).2) k grp⟩
 
 /-- the error branch exists and is modelled: a profile with a ±1 beyond the end of the property map makes the real
     code raise IndexError, the model return `none` -/
 theorem counter_error_witness :
-    countAll coordKey true "NA" [{ profile := [0, 1], pmap := [C13.exFi 1 10 20], group := "A" }] = none ∧
-    (countAll coordKey true "NA" [{ profile := [1, 0], pmap := [C13.exFi 1 10 20], group := "A" }]).isSome = true := by
+    countAll coordKey FeatureInfo.merge true "NA" [{ profile := [0, 1], pmap := [C13.exFi 1 10 20], group := "A" }] = none ∧
+    (countAll coordKey FeatureInfo.merge true "NA" [{ profile := [1, 0], pmap := [C13.exFi 1 10 20], group := "A" }]).isSome = true := by
   constructor <;> decide
 
 -- non-vacuity of the feed hypotheses: a gene model built the way the driver builds it
 example : GeneOK (mkGene "chr1" 4 0 { region := (100, 600), isoforms := [⟨"t1", "+", "g1", [(100, 200), (300, 400), (500, 600)]⟩] }).1 := by
   refine ⟨by decide, by decide, ⟨_, _, rfl⟩, ⟨_, _, rfl⟩⟩
+
+/-! ### rows after a region split: the label merge (candidate repair of finding G1) -/
+
+/-- MERGE IS COMMUTATIVE: the merged strand string, flags and gene list do not depend on which description came first -/
+theorem merge_comm (a b : Label) : mergeLabel a b = mergeLabel b a := mergeLabel_comm a b
+
+/-- MERGE IS ASSOCIATIVE -/
+theorem merge_assoc (a b c : Label) : mergeLabel (mergeLabel a b) c = mergeLabel a (mergeLabel b c) := mergeLabel_assoc a b c
+
+/-- MERGE IS IDEMPOTENT on descriptions in normal form (gene list and strand characters strictly increasing, flags =
+    base letter, S, C, then M exactly for more than one gene, else U or nothing) -/
+theorem merge_idem (a : Label) (h : LNormal a) : mergeLabel a a = a := mergeLabel_idem a h
+
+/-- every merged description is in normal form, so merging is idempotent on everything it produces -/
+theorem merge_normal_closed (a b : Label) :
+    LNormal (mergeLabel a b) ∧ mergeLabel (mergeLabel a b) (mergeLabel a b) = mergeLabel a b :=
+  ⟨mergeLabel_normal a b, mergeLabel_idem_merged a b⟩
+
+/-- `FeatureInfo.merge` (with its short cut "equal descriptions: keep self") is the label merge on normal forms, keeps the
+    coordinates and yields a normal form -/
+theorem merge_info_spec (a b : FeatureInfo) (ha : FNormal a) :
+    (a.merge b).label = mergeLabel a.label b.label ∧ coordKey (a.merge b) = coordKey a ∧ FNormal (a.merge b) :=
+  ⟨merge_label a b ha, merge_coordKey a b, merge_normal a b ha⟩
+
+-- non-vacuity: the two descriptions of exon 50001-50200 of the G1 input (gene gA alone / gA and gB loaded together)
+def labA : Label := { strand := "+", ftype := "XU", genes := ["gA"] }
+def labAB : Label := { strand := "+-", ftype := "XM", genes := ["gA", "gB"] }
+example : LNormal labA ∧ LNormal labAB ∧ mergeLabel labA labAB = labAB ∧ mergeLabel labAB labA = labAB ∧
+    mergeLabel labA { strand := "-", ftype := "ISU", genes := ["g0"] } = { strand := "+-", ftype := "TSM", genes := ["g0", "gA"] } := by
+  refine ⟨⟨by unfold Incr; decide, by unfold Incr; decide, by decide⟩, ⟨by unfold Incr; decide, by unfold Incr; decide, by decide⟩,
+    by decide, by decide, by decide⟩
+
+/-- ROW LABEL = UNION (code after the repair): for every row of the dumped table, let `S` be the descriptions counted for
+    its coordinates (FeatureInfos of the property maps of processed reads at +1 / −1 positions, from whatever gene infos,
+    in whatever order).  `S` is not empty, all of `S` have the row's coordinates, a gene is listed in the row iff it is
+    listed in a member of `S`, a strand character occurs in the row iff it occurs in a member of `S`; and when the
+    members of `S` have sorted gene lists and strand strings (as `set_feature_properties` produces) the row's gene list IS
+    the sorted union of their gene lists and its strand string the sorted union of their strand characters -/
+theorem row_label_is_union (ignore : Bool) (dflt : String) (evs : List ReadEv) (st : PCounter CoordKey)
+    (h : countAll coordKey FeatureInfo.merge ignore dflt evs = some st) (r : CountRow) (hr : r ∈ dumpRows st) :
+    let S := (touched evs).filter (fun x => coordKey x == coordKey r.fi)
+    S ≠ [] ∧
+    (∀ g, g ∈ r.fi.genes ↔ ∃ x ∈ S, g ∈ x.genes) ∧
+    (∀ c, c ∈ r.fi.strand.toList ↔ ∃ x ∈ S, c ∈ x.strand.toList) ∧
+    ((∀ x ∈ S, Incr strLt x.genes) → r.fi.genes = sortSD strLt (S.flatMap (·.genes))) ∧
+    ((∀ x ∈ S, Incr charLt x.strand.toList) → r.fi.strand = String.ofList (sortSD charLt (S.flatMap (·.strand.toList)))) := by
+  intro S
+  obtain ⟨f, rest, hf, hfi⟩ := C13.row_description coordKey C13.hupd_merge ignore dflt evs st h r hr
+  have hS : S = f :: rest := hf
+  have hg : ∀ g, g ∈ r.fi.genes ↔ ∃ x ∈ S, g ∈ x.genes := by
+    intro g; rw [hfi, hS]; exact mem_foldl_merge_genes f rest g
+  have hc : ∀ c, c ∈ r.fi.strand.toList ↔ ∃ x ∈ S, c ∈ x.strand.toList := by
+    intro c; rw [hfi, hS]; exact mem_foldl_merge_strand f rest c
+  refine ⟨by rw [hS]; simp, hg, hc, ?_, ?_⟩
+  · intro hn
+    have hf0 := hn f (by rw [hS]; exact List.mem_cons_self ..)
+    have i1 : Incr strLt r.fi.genes := by
+      rw [hfi]; clear hfi hg hc hn hf hS
+      induction rest generalizing f with
+      | nil => exact hf0
+      | cons x xs ih => rw [List.foldl_cons]; exact ih _ (merge_genes_incr f x hf0)
+    apply incr_ext strLt_lin _ _ i1 (sortSD_incr strLt_lin _)
+    intro g; rw [hg g, mem_sortSD]; simp [List.mem_flatMap]
+  · intro hn
+    have hf0 := hn f (by rw [hS]; exact List.mem_cons_self ..)
+    have i2 : Incr charLt r.fi.strand.toList := by
+      rw [hfi]; clear hfi hg hc hn hf hS
+      induction rest generalizing f with
+      | nil => exact hf0
+      | cons x xs ih => rw [List.foldl_cons]; exact ih _ (merge_strand_incr f x hf0)
+    have : r.fi.strand.toList = sortSD charLt (S.flatMap (·.strand.toList)) := by
+      apply incr_ext charLt_lin _ _ i2 (sortSD_incr charLt_lin _)
+      intro c; rw [hc c, mem_sortSD]; simp [List.mem_flatMap]
+    rw [← this, String.ofList_toList]
+
+/-- on the feed of `process_genic` (property maps produced by `set_feature_properties`) the gene list of every row of the
+    repaired exon / intron table IS the sorted union of the gene lists of the descriptions counted for its coordinates -
+    no hypothesis on the descriptions left -/
+theorem feed_row_genes_union (ignore : Bool) (dflt : String) (evs : List ReadEv) (st : PCounter CoordKey)
+    (hfeed : ∀ ev ∈ evs, ∃ chr δ features isoforms n, ev.pmap = setFeatureProperties chr δ features isoforms n)
+    (h : countAll coordKey FeatureInfo.merge ignore dflt evs = some st) (r : CountRow) (hr : r ∈ dumpRows st) :
+    r.fi.genes = sortSD strLt (((touched evs).filter (fun x => coordKey x == coordKey r.fi)).flatMap (·.genes)) := by
+  apply (row_label_is_union ignore dflt evs st h r hr).2.2.2.1
+  intro x hx
+  obtain ⟨ev, hev, p, hp, _, hpx⟩ := (mem_touched evs x).mp (List.mem_filter.mp hx).1
+  obtain ⟨chr, δ, features, isoforms, n, hm⟩ := hfeed ev hev
+  have hxm : x ∈ ev.pmap := by rw [← hpx]; exact (List.of_mem_zip hp).2
+  rw [hm] at hxm
+  unfold setFeatureProperties at hxm
+  obtain ⟨y, _, hy⟩ := List.mem_map.mp hxm
+  rw [← hy]
+  exact sortSD_incr strLt_lin _
+
+/-- the same for the strand string, for annotations over the GTF strands `+`, `-`, `.`: the strand string of every row IS the
+    sorted union of the strand characters of the descriptions counted for its coordinates -/
+theorem feed_row_strand_union (ignore : Bool) (dflt : String) (evs : List ReadEv) (st : PCounter CoordKey)
+    (hfeed : ∀ ev ∈ evs, ∃ chr δ features isoforms n, ev.pmap = setFeatureProperties chr δ features isoforms n ∧
+      ∀ t ∈ isoforms, t.strand ∈ ["+", "-", "."])
+    (h : countAll coordKey FeatureInfo.merge ignore dflt evs = some st) (r : CountRow) (hr : r ∈ dumpRows st) :
+    r.fi.strand = String.ofList (sortSD charLt
+      (((touched evs).filter (fun x => coordKey x == coordKey r.fi)).flatMap (·.strand.toList))) := by
+  apply (row_label_is_union ignore dflt evs st h r hr).2.2.2.2
+  intro x hx
+  obtain ⟨ev, hev, p, hp, _, hpx⟩ := (mem_touched evs x).mp (List.mem_filter.mp hx).1
+  obtain ⟨chr, δ, features, isoforms, n, hm, hstd⟩ := hfeed ev hev
+  have hxm : x ∈ ev.pmap := by rw [← hpx]; exact (List.of_mem_zip hp).2
+  rw [hm] at hxm
+  unfold setFeatureProperties at hxm
+  obtain ⟨y, _, hy⟩ := List.mem_map.mp hxm
+  rw [← hy]
+  apply concat_std_strands_incr _ (sortSD_incr strLt_lin _)
+  intro s hs
+  rw [mem_sortSD, List.mem_map] at hs
+  obtain ⟨⟨s', g', b⟩, he, hs'⟩ := hs
+  simp only at hs'; subst hs'
+  obtain ⟨t, ht, hts, _, _⟩ := (mem_featureEntries isoforms y.1 s' g').mp ⟨b, he⟩
+  rw [← hts]; exact hstd t ht
+
+/-- every description `set_feature_properties` produces from an annotation over the GTF strands is in normal form (sorted
+    gene list, sorted strand characters, flags = base letter, S, C, then M exactly for more than one gene, else U / nothing) -/
+theorem feature_labels_normal (chr : String) (δ : Int) (features : List Iv) (isoforms : List IsoformFeatures) (n : Nat)
+    (hstd : ∀ t ∈ isoforms, t.strand ∈ ["+", "-", "."]) :
+    ∀ x ∈ setFeatureProperties chr δ features isoforms n, FNormal x :=
+  setFeatureProperties_normal chr δ features isoforms n hstd
+
+/-- so every description counted on the feed of `process_genic` is in normal form: the hypothesis `hnorm` of
+    `row_label_order_independent` and the hypothesis of `merge_idem` hold on the feed -/
+theorem feed_descriptions_normal (evs : List ReadEv)
+    (hfeed : ∀ ev ∈ evs, ∃ chr δ features isoforms n, ev.pmap = setFeatureProperties chr δ features isoforms n ∧
+      ∀ t ∈ isoforms, t.strand ∈ ["+", "-", "."]) :
+    ∀ x ∈ touched evs, FNormal x := by
+  intro x hx
+  obtain ⟨ev, hev, p, hp, _, hpx⟩ := (mem_touched evs x).mp hx
+  obtain ⟨chr, δ, features, isoforms, n, hm, hstd⟩ := hfeed ev hev
+  have hxm : x ∈ ev.pmap := by rw [← hpx]; exact (List.of_mem_zip hp).2
+  rw [hm] at hxm
+  exact feature_labels_normal chr δ features isoforms n hstd x hxm
+
+/-- ORDER INDEPENDENCE of the whole label (flags included): two histories that count, for some coordinates, the same
+    descriptions (in normal form) in a different order print the same strand string, flags and gene list there -/
+theorem row_label_order_independent (ignore ignore' : Bool) (dflt dflt' : String) (evs evs' : List ReadEv)
+    (st st' : PCounter CoordKey)
+    (h : countAll coordKey FeatureInfo.merge ignore dflt evs = some st)
+    (h' : countAll coordKey FeatureInfo.merge ignore' dflt' evs' = some st')
+    (r r' : CountRow) (hr : r ∈ dumpRows st) (hr' : r' ∈ dumpRows st') (hk : coordKey r.fi = coordKey r'.fi)
+    (hperm : (((touched evs).filter (fun x => coordKey x == coordKey r.fi)).map (·.label)).Perm
+             (((touched evs').filter (fun x => coordKey x == coordKey r.fi)).map (·.label)))
+    (hnorm : ∀ x ∈ touched evs, coordKey x = coordKey r.fi → FNormal x) :
+    r.fi.label = r'.fi.label := by
+  obtain ⟨f, rest, hf, hfi⟩ := C13.row_description coordKey C13.hupd_merge ignore dflt evs st h r hr
+  obtain ⟨f', rest', hf', hfi'⟩ := C13.row_description coordKey C13.hupd_merge ignore' dflt' evs' st' h' r' hr'
+  rw [← hk] at hf'
+  rw [hf, hf'] at hperm
+  have hmem : ∀ x ∈ f :: rest, FNormal x := by
+    intro x hx
+    have : x ∈ (touched evs).filter (fun x => coordKey x == coordKey r.fi) := by rw [hf]; exact hx
+    obtain ⟨h1, h2⟩ := List.mem_filter.mp this
+    exact hnorm x h1 (by simpa using h2)
+  have hl1 : ∀ l ∈ (f :: rest).map (·.label), LNormal l := by
+    intro l hl; obtain ⟨x, hx, e⟩ := List.mem_map.mp hl; subst e; exact hmem x hx
+  have hf'n : FNormal f' := by
+    have : f'.label ∈ (f :: rest).map (·.label) := hperm.symm.subset (by simp)
+    exact hl1 _ this
+  have e1 := (foldl_merge_label f rest (hmem f (List.mem_cons_self ..))).1
+  have e2 := (foldl_merge_label f' rest' hf'n).1
+  have j1 : labelJoin ((f :: rest).map (·.label)) = some r.fi.label := by
+    rw [hfi, e1]; simp [labelJoin, List.foldl_map]
+  have j2 : labelJoin ((f' :: rest').map (·.label)) = some r'.fi.label := by
+    rw [hfi', e2]; simp [labelJoin, List.foldl_map]
+  have := labelJoin_perm _ _ hperm hl1
+  rw [j1, j2] at this
+  exact Option.some.inj this
+
+def rowTexts {κ} [BEq κ] (st : Option (PCounter κ)) : Option (List String) := st.map (fun s => (dumpRows s).map (·.text))
+
+-- non-vacuity of the hypotheses of `feed_row_genes_union` / `feed_row_strand_union` / `row_label_order_independent`
+def exFeedEv : ReadEv :=
+  { profile := [1, -1], group := "A",
+    pmap := setFeatureProperties "chr1" 2 [(10, 20), (30, 40)] [⟨"t1", "+", "g1", [(10, 20), (30, 40)]⟩, ⟨"t2", "-", "g2", [(30, 40)]⟩] 0 }
+example : (∀ ev ∈ [exFeedEv], ∃ chr δ features isoforms n, ev.pmap = setFeatureProperties chr δ features isoforms n ∧
+      ∀ t ∈ isoforms, t.strand ∈ ["+", "-", "."]) ∧
+    (∃ st, countAll coordKey FeatureInfo.merge true "NA" [exFeedEv] = some st ∧
+      (dumpRows st).map (·.text) = ["chr1\t10\t20\t+\tXU\tg1\tNA\t1\t0", "chr1\t30\t40\t+-\tXM\tg1,g2\tNA\t0\t1"]) := by
+  refine ⟨?_, _, rfl, by decide⟩
+  intro ev hev
+  simp only [List.mem_singleton] at hev
+  subst hev
+  exact ⟨_, _, _, _, _, rfl, by decide⟩
+
+def exA : FeatureInfo := ⟨1, "chr1", 50001, 50200, "+", "XU", ["gA"]⟩
+def exAB : FeatureInfo := ⟨9, "chr1", 50001, 50200, "+-", "XM", ["gA", "gB"]⟩
+example : FNormal exA ∧ FNormal exAB ∧
+    (((touched [⟨[1], [exA], "NA"⟩, ⟨[1], [exAB], "NA"⟩]).filter (fun x => coordKey x == ("chr1", 50001, 50200))).map (·.label)).Perm
+    (((touched [⟨[1], [exAB], "NA"⟩, ⟨[1], [exA], "NA"⟩]).filter (fun x => coordKey x == ("chr1", 50001, 50200))).map (·.label)) ∧
+    rowTexts (countAll coordKey FeatureInfo.merge true "NA" [⟨[1], [exA], "NA"⟩, ⟨[1], [exAB], "NA"⟩]) =
+    rowTexts (countAll coordKey FeatureInfo.merge true "NA" [⟨[1], [exAB], "NA"⟩, ⟨[1], [exA], "NA"⟩]) := by
+  refine ⟨⟨by unfold Incr; decide, by unfold Incr; decide, by decide⟩, ⟨by unfold Incr; decide, by unfold Incr; decide, by decide⟩, ?_, by decide⟩
+  exact List.Perm.swap _ _ _
+
+/-- the G1 input as the counters see it (audit, 70-kb chr1): gene gA (+) = tA1 1001-1200, 20001-20200, 50001-50200 and
+    tA2 1001-1200, 20001-20200, 22001-22200; gene gB (−) = tB1 50001-50200, 51801-52000.  The read cluster is cut into two
+    sub-regions; the first loads gA only (the tA1 read is processed there), the second gA and gB (3 tB1 reads). -/
+def g1GeneA : GeneIn :=
+  { region := (1001, 50200), isoforms := [⟨"tA1", "+", "gA", [(1001, 1200), (20001, 20200), (50001, 50200)]⟩,
+                                           ⟨"tA2", "+", "gA", [(1001, 1200), (20001, 20200), (22001, 22200)]⟩] }
+def g1GeneAB : GeneIn :=
+  { region := (1001, 52000), isoforms := g1GeneA.isoforms ++ [⟨"tB1", "-", "gB", [(50001, 50200), (51801, 52000)]⟩] }
+def g1Loads : List GeneModel := mkGenes "chr1" 6 0 [g1GeneA, g1GeneAB]
+def g1Read (blocks : List Iv) : ReadAln := { blocks := blocks, polya := -1, polyt := -1, group := "NA" }
+/-- the exon profiles of the 8 reads against the gene info of their sub-region (real constructor model) -/
+def g1Profiles : List (Option (List Int)) :=
+  match g1Loads with
+  | [a, ab] =>
+    [(exonEvent a (g1Read [(1001, 1200), (20001, 20200), (50001, 50200)])).map (·.profile),
+     (exonEvent a (g1Read [(1001, 1200), (20001, 20200), (22001, 22200)])).map (·.profile),
+     (exonEvent ab (g1Read [(50001, 50200), (51801, 52000)])).map (·.profile)]
+  | _ => []
+
+theorem g1_profiles_witness : g1Profiles = [some [1, 1, -1, 1], some [1, 1, 1, 0], some [0, 0, 0, 1, 1]] := by decide +kernel
+
+/-- the history the counters see: 1 read of tA1 and 4 of tA2 against the gene info of sub-region 1 (gA only), 3 reads of
+    tB1 against the gene info of sub-region 2 (gA and gB); profiles as in `g1_profiles_witness` -/
+def g1History : List ReadEv :=
+  match g1Loads with
+  | [a, ab] =>
+    [{ profile := [1, 1, -1, 1], pmap := a.exonMap, group := "NA" }] ++
+      List.replicate 4 { profile := [1, 1, 1, 0], pmap := a.exonMap, group := "NA" } ++
+      List.replicate 3 { profile := [0, 0, 0, 1, 1], pmap := ab.exonMap, group := "NA" }
+  | _ => []
+
+/-- THE DEFECT (finding G1) on the code before the repair: the shared exon 50001-50200 is printed in two rows, 1 + 3 -/
+theorem split_rows_orig_witness :
+    rowTexts (countAll strandKey keepFirst true "NA" g1History) =
+      some ["chr1\t1001\t1200\t+\tX\tgA\tNA\t5\t0", "chr1\t20001\t20200\t+\tI\tgA\tNA\t5\t0",
+            "chr1\t22001\t22200\t+\tXU\tgA\tNA\t4\t1", "chr1\t50001\t50200\t+\tXU\tgA\tNA\t1\t0",
+            "chr1\t50001\t50200\t+-\tXM\tgA,gB\tNA\t3\t0", "chr1\t51801\t52000\t-\tXU\tgB\tNA\t3\t0"] := by
+  decide +kernel
+
+/-- the same history on the repaired code: one row, 4 reads, the description of the feature with both genes -/
+theorem split_label_witness :
+    rowTexts (countAll coordKey FeatureInfo.merge true "NA" g1History) =
+      some ["chr1\t1001\t1200\t+\tX\tgA\tNA\t5\t0", "chr1\t20001\t20200\t+\tI\tgA\tNA\t5\t0",
+            "chr1\t22001\t22200\t+\tXU\tgA\tNA\t4\t1", "chr1\t50001\t50200\t+-\tXM\tgA,gB\tNA\t4\t0",
+            "chr1\t51801\t52000\t-\tXU\tgB\tNA\t3\t0"] := by
+  decide +kernel
+
+/-- what remains after the repair (known finding `partial_load_label`): when the shared exon is counted ONLY through the
+    sub-region that loads gA alone, the row cannot name gB, although the annotation (both genes loaded) says +- / gA,gB -/
+theorem partial_label_witness :
+    rowTexts (countAll coordKey FeatureInfo.merge true "NA" (g1History.take 1)) =
+      some ["chr1\t1001\t1200\t+\tX\tgA\tNA\t1\t0", "chr1\t20001\t20200\t+\tI\tgA\tNA\t1\t0",
+            "chr1\t22001\t22200\t+\tXU\tgA\tNA\t0\t1", "chr1\t50001\t50200\t+\tXU\tgA\tNA\t1\t0"] ∧
+    (match g1Loads with
+     | [_, ab] => (ab.exonMap.filter (fun fi => fi.start == 50001)).map (·.toStr)
+     | _ => []) = ["chr1\t50001\t50200\t+-\tXM\tgA,gB"] := by
+  constructor <;> decide +kernel
+
+/-! ### totals -/
+
+/-- the counts do not depend on how a row is re-described: the repair's merge changes labels only -/
+theorem counts_independent_of_upd {κ : Type} [BEq κ] [LawfulBEq κ] (key : FeatureInfo → κ)
+    (upd upd' : FeatureInfo → FeatureInfo → FeatureInfo)
+    (hupd : ∀ a b, key (upd a b) = key a) (hupd' : ∀ a b, key (upd' a b) = key a) (ignore : Bool) (dflt : String)
+    (evs : List ReadEv) (st st' : PCounter κ) (h : countAll key upd ignore dflt evs = some st)
+    (h' : countAll key upd' ignore dflt evs = some st') (k : κ) (g : String) :
+    st.inclOf k g = st'.inclOf k g ∧ st.exclOf k g = st'.exclOf k g := by
+  rw [C13.include_counts key hupd ignore dflt evs st h k g, C13.include_counts key hupd' ignore dflt evs st' h' k g,
+      C13.exclude_counts key hupd ignore dflt evs st h k g, C13.exclude_counts key hupd' ignore dflt evs st' h' k g]
+  exact ⟨rfl, rfl⟩
+
+/-- sums over two lists commute -/
+theorem sum_sum_comm {α β : Type} (l1 : List α) (l2 : List β) (f : α → β → Nat) :
+    (l1.map (fun a => (l2.map (fun b => f a b)).sum)).sum = (l2.map (fun b => (l1.map (fun a => f a b)).sum)).sum := by
+  induction l1 with
+  | nil => simp only [List.map_nil, List.sum_nil]; exact (sum_map_zero l2).symm
+  | cons a as ih =>
+    simp only [List.map_cons, List.sum_cons, ih]
+    rw [← sum_map_add]
+
+/-- one read: the positions counted for coordinates `c` split by the strand string of their description -/
+theorem hits_sum_strands (v : Int) (c : CoordKey) (strands : List String) (hnd : strands.Nodup) (prof : List Int)
+    (pm : List FeatureInfo)
+    (hcov : ∀ p ∈ prof.zip pm, p.1 = v → coordKey p.2 = c → p.2.strand ∈ strands) :
+    hits coordKey v c prof pm = (strands.map (fun s => hits strandKey v (c.1, c.2.1, c.2.2, s) prof pm)).sum := by
+  unfold hits
+  generalize prof.zip pm = l at hcov
+  induction l with
+  | nil => simp only [List.countP_nil]; exact (sum_map_zero strands).symm
+  | cons p ps ih =>
+    have ih' := ih (fun q hq => hcov q (List.mem_cons_of_mem _ hq))
+    simp only [List.countP_cons, ih']
+    rw [sum_map_add]
+    congr 1
+    obtain ⟨c1, c2, c3⟩ := c
+    by_cases hp : (p.1 == v && coordKey p.2 == (c1, c2, c3)) = true
+    · have hp' := hp
+      simp only [Bool.and_eq_true, beq_iff_eq] at hp'
+      have hs := hcov p (List.mem_cons_self ..) hp'.1 hp'.2
+      have hk : ∀ s, (p.1 == v && strandKey p.2 == (c1, c2, c3, s)) = decide (p.2.strand = s) := by
+        intro s
+        have h2 := hp'.2
+        simp only [coordKey, Prod.mk.injEq] at h2
+        rw [Bool.eq_iff_iff]
+        simp only [Bool.and_eq_true, beq_iff_eq, strandKey, Prod.mk.injEq, decide_eq_true_eq]
+        constructor
+        · rintro ⟨_, _, _, _, h⟩; exact h
+        · intro h; exact ⟨hp'.1, h2.1, h2.2.1, h2.2.2, h⟩
+      simp only [hp, if_true, hk, decide_eq_true_eq]
+      exact (sum_indicator strands hnd p.2.strand 1 hs).symm
+    · have hk : ∀ s, (p.1 == v && strandKey p.2 == (c1, c2, c3, s)) = false := by
+        intro s
+        rw [Bool.eq_false_iff]
+        intro h
+        apply hp
+        simp only [Bool.and_eq_true, beq_iff_eq, strandKey, coordKey, Prod.mk.injEq] at h ⊢
+        exact ⟨h.1, h.2.1, h.2.2.1, h.2.2.2.1⟩
+      simp only [hp, hk, Bool.false_eq_true, if_false]
+      exact (sum_map_zero strands).symm
+
+/-- ROWS SUM (totals unchanged by the repair, full strength): for every coordinates `c` and group `g` the counts of the
+    repaired table's row equal the SUM of the counts of the old table's rows with these coordinates, one per strand string
+    under which the feature was described (`strands`: any duplicate-free list covering the strand strings of the counted
+    descriptions of `c`).  Instance on the G1 input: 1 + 3 = 4 (`split_rows_orig_witness`, `split_label_witness`). -/
+theorem rows_sum (ignore : Bool) (dflt : String) (evs : List ReadEv) (sn : PCounter CoordKey) (so : PCounter StrandKey)
+    (hn : countAll coordKey FeatureInfo.merge ignore dflt evs = some sn)
+    (ho : countAll strandKey keepFirst ignore dflt evs = some so) (c : CoordKey) (g : String) (strands : List String)
+    (hnd : strands.Nodup) (hcov : ∀ x ∈ touched evs, coordKey x = c → x.strand ∈ strands) :
+    sn.inclOf c g = (strands.map (fun s => so.inclOf (c.1, c.2.1, c.2.2, s) g)).sum ∧
+    sn.exclOf c g = (strands.map (fun s => so.exclOf (c.1, c.2.1, c.2.2, s) g)).sum := by
+  have hev : ∀ (v : Int), (v = 1 ∨ v = -1) → ∀ ev ∈ evs, hits coordKey v c ev.profile ev.pmap =
+      (strands.map (fun s => hits strandKey v (c.1, c.2.1, c.2.2, s) ev.profile ev.pmap)).sum := by
+    intro v hv ev hev
+    apply hits_sum_strands v c strands hnd
+    intro p hp hpv hpc
+    exact hcov p.2 ((mem_touched evs p.2).mpr ⟨ev, hev, p, hp, by rw [hpv]; exact hv, rfl⟩) hpc
+  have hi : ∀ s, so.inclOf (c.1, c.2.1, c.2.2, s) g = _ :=
+    fun s => C13.include_counts strandKey (C13.hupd_keepFirst strandKey) ignore dflt evs so ho (c.1, c.2.1, c.2.2, s) g
+  have he : ∀ s, so.exclOf (c.1, c.2.1, c.2.2, s) g = _ :=
+    fun s => C13.exclude_counts strandKey (C13.hupd_keepFirst strandKey) ignore dflt evs so ho (c.1, c.2.1, c.2.2, s) g
+  rw [C13.include_counts coordKey C13.hupd_merge ignore dflt evs sn hn c g,
+      C13.exclude_counts coordKey C13.hupd_merge ignore dflt evs sn hn c g]
+  simp only [hi, he]
+  constructor
+  · rw [sum_sum_comm]
+    congr 1
+    apply List.map_congr_left
+    intro ev hev'; exact hev 1 (Or.inl rfl) ev (List.mem_filter.mp hev').1
+  · rw [sum_sum_comm]
+    congr 1
+    apply List.map_congr_left
+    intro ev hev'; exact hev (-1) (Or.inr rfl) ev (List.mem_filter.mp hev').1
+
+-- non-vacuity: the G1 history, exon 50001-50200 described as "+" (gA alone) and "+-" (gA and gB)
+example : ∃ sn so, countAll coordKey FeatureInfo.merge true "NA" g1History = some sn ∧
+    countAll strandKey keepFirst true "NA" g1History = some so ∧
+    (∀ x ∈ touched g1History, coordKey x = ("chr1", 50001, 50200) → x.strand ∈ ["+", "+-"]) ∧
+    sn.inclOf ("chr1", 50001, 50200) "NA" = 4 ∧
+    so.inclOf ("chr1", 50001, 50200, "+") "NA" = 1 ∧ so.inclOf ("chr1", 50001, 50200, "+-") "NA" = 3 := by
+  refine ⟨_, _, rfl, rfl, by decide +kernel, by decide +kernel, by decide +kernel, by decide +kernel⟩
+
+/-- the single-strand special case: the old table has one row for the coordinates and it carries the same counts -/
+theorem rows_sum_partial (ignore : Bool) (dflt : String) (evs : List ReadEv) (sn : PCounter CoordKey) (so : PCounter StrandKey)
+    (hn : countAll coordKey FeatureInfo.merge ignore dflt evs = some sn)
+    (ho : countAll strandKey keepFirst ignore dflt evs = some so) (c : CoordKey) (s : String)
+    (hone : ∀ ev ∈ evs, ∀ x ∈ ev.pmap, coordKey x = c → x.strand = s) (g : String) :
+    sn.inclOf c g = so.inclOf (c.1, c.2.1, c.2.2, s) g ∧ sn.exclOf c g = so.exclOf (c.1, c.2.1, c.2.2, s) g := by
+  rw [C13.include_counts coordKey C13.hupd_merge ignore dflt evs sn hn c g,
+      C13.include_counts strandKey (C13.hupd_keepFirst strandKey) ignore dflt evs so ho _ g,
+      C13.exclude_counts coordKey C13.hupd_merge ignore dflt evs sn hn c g,
+      C13.exclude_counts strandKey (C13.hupd_keepFirst strandKey) ignore dflt evs so ho _ g]
+  have hh : ∀ (v : Int), ∀ ev ∈ evs, hits coordKey v c ev.profile ev.pmap = hits strandKey v (c.1, c.2.1, c.2.2, s) ev.profile ev.pmap := by
+    intro v ev hev
+    unfold hits
+    apply List.countP_congr
+    intro p hp
+    have hx : p.2 ∈ ev.pmap := (List.of_mem_zip hp).2
+    have := hone ev hev p.2 hx
+    obtain ⟨c1, c2, c3⟩ := c
+    simp only [coordKey, strandKey, Bool.and_eq_true, beq_iff_eq, Prod.mk.injEq] at this ⊢
+    constructor
+    · rintro ⟨h1, h2, h3, h4⟩; exact ⟨h1, h2, h3, h4, this ⟨h2, h3, h4⟩⟩
+    · rintro ⟨h1, h2, h3, h4, _⟩; exact ⟨h1, h2, h3, h4⟩
+  constructor
+  · congr 1
+    apply List.map_congr_left
+    intro ev hev; exact hh 1 ev (List.mem_filter.mp hev).1
+  · congr 1
+    apply List.map_congr_left
+    intro ev hev; exact hh (-1) ev (List.mem_filter.mp hev).1
+
+example : ∃ sn so, countAll coordKey FeatureInfo.merge true "NA" C13.exHistory = some sn ∧
+    countAll strandKey keepFirst true "NA" C13.exHistory = some so ∧
+    (∀ ev ∈ C13.exHistory, ∀ x ∈ ev.pmap, coordKey x = ("chr1", 10, 20) → x.strand = "+") ∧
+    sn.inclOf ("chr1", 10, 20) "NA" = 2 := by
+  refine ⟨_, _, rfl, rfl, by decide, by decide⟩
 
 /-! ### the delta of a run -/
 
